@@ -94,6 +94,7 @@ class C10(core.Prop):
             {'t': 'prepared', 'ordinal': False, 'lo': None, 'hi': 0},
             {'t': 'train', 'lo': 0, 'tag': 7},
             {'t': 'windows', 'kind': 'integer', 'sp': 'atleast', 'bounds': [None, 0, 3, None], 'data': [-1, 0, 1, 3, 4]},
+            {'t': 'windows', 'kind': 'integer', 'sp': 'exactly', 'bounds': [-1, 1, 3, 5], 'data': [-2, -1, 0, 1, 2, 3, 4, 5], 'via_feed': True},
         ]
 
     def cases(self, rng, tier):
@@ -117,7 +118,10 @@ class C10(core.Prop):
                 seq = seq + [None]
             data = [rng.randint(lo - 2, lo + 11) for _ in range(rng.randint(0, 8))]
             data += rng.sample(bounds, min(len(bounds), rng.randint(0, 2)))
-            out.append({'t': 'windows', 'kind': kind, 'sp': sp, 'bounds': seq, 'data': sorted(data)})
+            case = {'t': 'windows', 'kind': kind, 'sp': sp, 'bounds': seq, 'data': sorted(data)}
+            if kind in ('integer', 'float', 'string') and len(out) % 6 == 0:
+                case['via_feed'] = True      # through the real alchemy.Feed (reader + result cache shared by all windows)
+            out.append(case)
         for _ in range(n // 5):
             out.append(
                 {
